@@ -95,6 +95,15 @@ def base_configs(tier: str) -> List[dict]:
     out.append(cfg([n("VSrc", {"value": 2.0}), OP_SWEEP, n("VSum")]))
     out.append(cfg([n("VSrc", {"value": 2.0}), PROBE_SWEEP, n("VSink")]))
     out.append(cfg([n("VSrc", {"value": 2.0}), OP_SWEEP_CTX, n("VSum"), PROBE_SWEEP_CTX]))
+    # several sweeps of ONE kind with different definitions in one pipeline (generated classes of one qualname side by side), and sweeps
+    # that declare variables but no parameter expression at all (the wrapped processor repeated over the grid)
+    op2 = _sweep("VTwo", {"factor": "t"}, {"t": {"values": [3.0, 4.0, 5.0]}}, mode="by_position")
+    op2["parameters"] = {"addend": 0.5}
+    out.append(cfg([n("VSrc", {"value": 2.0}), OP_SWEEP, n("VSum"), op2, n("VSum"), _sweep("VMulDef", {"factor": "2.0 * t"}, {"t": [1.0, 2.0]}), n("VSum")]))
+    noexpr = _sweep("VMulDef", {}, {"t": {"values": [1.0, 2.0, 3.0]}}, mode="by_position")
+    noexpr_probe = _sweep("VGainProbe", {}, {"t": {"lo": 1.0, "hi": 2.0, "steps": 2}, "u": {"values": [1.0]}}, collection=None, broadcast=True, mode="by_position")
+    noexpr_probe["context_key"] = "res"
+    out.append(cfg([_sweep("VSrcDef", {}, {"t": {"values": [1.0, 2.0]}}), n("slice:VMulDef:FloatDataCollection"), n("VSum"), noexpr, n("VSum"), noexpr_probe]))
     # run spaces
     out.append(cfg([gen.SYMBOLS[s]["node"] for s in ("src_ctx", "failif", "probe_r")], RUN_SPACES[0]))
     out.append(cfg([gen.SYMBOLS[s]["node"] for s in ("src_ctx", "two")], RUN_SPACES[1]))
